@@ -70,10 +70,9 @@ def checkC09 (toks : List String) (res : String) : Option Verdict :=
     let q : Rat := (v : Rat) * pow2Rat (es - ed)
     let w := roundQ mode q
     let spec : Option Bool := if D.inRange w then some ((res.splitOn ":").getLast? == some (toString w)) else none
-    -- `1 << k` with k = digits of the promoted signed representation is its most negative number (the
-    -- static_assert of power_value does not apply to a rounding_integer): open class
-    let cls := if ed > es && (promote S).signed && (ed - es).toNat == (promote S).digits then "C09.wrapped_power_is_int_min" else ""
-    some { model := showRes (fun r => s!"sc(rd({r.1.toString},{toks[1]!}),{ed},2):{r.2}") m, spec := spec, cls := cls,
+    -- (`1 << k` with k = digits of the promoted signed representation is its most negative number: the repaired
+    -- class C09.wrapped_power_is_int_min is no longer excused, default_scale<-k> asserts 0 < divisor)
+    some { model := showRes (fun r => s!"sc(rd({r.1.toString},{toks[1]!}),{ed},2):{r.2}") m, spec := spec, cls := "",
            branch := s!"w2w/{toks[1]!}" ++ (if ed > es then "/narrow" else "/exact"), nontrivial := spec.isSome }
   | ["s2i", mode, st, es, dt, v] => do
     -- scaled_integer -> plain integer: through scaled_integer<Result> (exponent 0), then to_rep
